@@ -24,15 +24,15 @@ def is_cache_name(name):
 def cache_files(snap):
     """{path: (size, atime, mtime, bytes)} for cache-pattern regular files directly in the cache dir."""
     out = {}
-    for p, (kind, size, at, mt, data) in snap.items():
+    for p, (kind, size, at, mt, data, ino, gen) in snap.items():
         if kind == "f" and posixpath.dirname(p) == CACHE_DIR and is_cache_name(posixpath.basename(p)):
-            out[p] = (size, at, mt, data)
+            out[p] = (size, at, mt, data, ino, gen)
     return out
 
 
 def foreign_entries(snap):
     out = {}
-    for p, (kind, size, at, mt, data) in snap.items():
+    for p, (kind, size, at, mt, data, ino, gen) in snap.items():
         if p == CACHE_DIR or p == CONFIG:
             continue
         if kind == "f" and posixpath.dirname(p) == CACHE_DIR and is_cache_name(posixpath.basename(p)):
@@ -59,6 +59,7 @@ class Oracle:
         self.tainted = False  # some fault/crash happened earlier in this run (C19)
         self.pending_retry = set()  # keys whose last fetch failed (19d)
         self.rejected_unfetched = set()  # keys rejected by the validator whose refetch failed (19e)
+        self.rejected_since = {}  # key -> {"bytes": the rejected file content, "zombie": a zombie ran since}
         self.ended = False
         self.probes = world.stats["probes"]
         self.foreign = {}  # path -> (mtime, bytes) of files created by the user in the cache directory
@@ -236,6 +237,13 @@ class Oracle:
         w.stats["hits"] += len(req) - len(misses)
         if zombies:
             self.probe("get_with_zombie_alive")
+        if not obs.crashed:
+            # (a process that dies between the validator's verdict and acting on it cannot remember the
+            # verdict: no implementation can avoid serving that file after the restart)
+            for k in rejected:
+                p0 = self.path_seen.get(k) or w.path_of_key.get(k)
+                if p0 in pre_files:
+                    self.rejected_since[k] = {"id": (pre_files[p0][4], pre_files[p0][5]), "path": p0}
         if obs.busy_after > 0:
             self.volatile |= set(misses)
 
@@ -309,6 +317,15 @@ class Oracle:
                 clause = "19b" if self.c19 else ("18f-i" if any(u[0] == p for u in obs.unlinks) else "18a")
                 return self._v(clause, "returned path for key %d does not exist: %s" % (k, posixpath.basename(p)), obs)
             data = ent[3]
+            rj = self.rejected_since.get(k)
+            if rj is not None:
+                pre = pre_files.get(p)
+                same_file = pre is not None and (pre[4], pre[5]) == rj["id"] and (ent[4], ent[5]) == rj["id"]
+                if not same_file:
+                    del self.rejected_since[k]  # the file was replaced or rewritten since the rejection
+                else:
+                    return self._v("19e", "key %d was rejected by its validator earlier and the very file that was rejected "
+                                   "(never rewritten since) is now served as a hit" % k, obs)
             is_hit = k in reg and k not in rejected
             if is_hit:
                 ok = data in w.acceptable_bytes(k)
